@@ -96,6 +96,53 @@ static void c14WaitFd(int fd, short events)
   if(poll(&p, 1, 2000) <= 0) ipFail("kernel did not deliver the loop-back event in time");
 }
 
+// ---- creation of socket objects (top level and inside callbacks) ------------------------------------
+static void c14MkPair(int id)
+{
+  if(!c14Fresh(id)) return;
+  C14Obj* o = c14NewObj(C14_CLIENT, id);
+  o->other = new Socket;
+  o->ptr = c14Srv->pair(*o, *o->other);
+  if(!o->ptr) ipFail("pair failed");
+  else { o->fd = ((Server::Client*)o->ptr)->getSocket().s; o->peerFd = o->other->s; }
+}
+
+static void c14MkListen(int id)
+{
+  if(!c14Fresh(id)) return;
+  C14Obj* o = c14NewObj(C14_LISTENER, id);
+  ipLastAddFd = -1;
+  o->ptr = c14Srv->listen(Socket::loopbackAddress, 0, *o);
+  if(!o->ptr || ipLastAddFd < 0) ipFail("listen failed");
+  else o->fd = ipLastAddFd;
+}
+
+static void c14MkConn(int id)
+{
+  if(!c14Fresh(id)) return;
+  if(c14RawListenFd < 0)
+  {
+    c14RawListenFd = socket(AF_INET, SOCK_STREAM | SOCK_CLOEXEC, 0);
+    struct sockaddr_in sin; memset(&sin, 0, sizeof(sin));
+    sin.sin_family = AF_INET; sin.sin_addr.s_addr = htonl(INADDR_LOOPBACK); sin.sin_port = 0;
+    socklen_t len = sizeof(sin);
+    if(bind(c14RawListenFd, (struct sockaddr*)&sin, sizeof(sin)) || listen(c14RawListenFd, 64) ||
+       getsockname(c14RawListenFd, (struct sockaddr*)&sin, &len)) ipFail("raw listener");
+    c14RawPort = ntohs(sin.sin_port);
+  }
+  C14Obj* o = c14NewObj(C14_EST, id);
+  ipLastAddFd = -1;
+  o->ptr = c14Srv->connect(Socket::loopbackAddress, c14RawPort, *o);
+  if(!o->ptr || ipLastAddFd < 0) ipFail("connect failed");
+  else
+  {
+    o->fd = ipLastAddFd;
+    c14WaitFd(c14RawListenFd, POLLIN);
+    o->peerFd = accept(c14RawListenFd, 0, 0);
+    c14WaitFd(o->fd, POLLOUT);
+  }
+}
+
 static bool c14DoAct(const char* act, C14Obj* newc);
 
 // runs the next script of the object; returns true when the script said `null`
@@ -171,9 +218,12 @@ static bool c14DoAct(const char* act, C14Obj* newc)
   const char* op = f[0];
   if(!strcmp(op, "null")) return true;
   if(!strcmp(op, "intr")) { c14Srv->interrupt(); return false; }
+  if(!strcmp(op, "pair")) { c14MkPair((int)a); return false; }
+  if(!strcmp(op, "lis")) { c14MkListen((int)a); return false; }
+  if(!strcmp(op, "con")) { c14MkConn((int)a); return false; }
   if(!strcmp(op, "mk"))
   {
-    if(!c14Fresh((int)a) || b < 1) return false;
+    if(!c14Fresh((int)a)) return false;
     C14Obj* o = c14NewObj(C14_TIMER, (int)a);
     o->ptr = c14Srv->time(b, *o);
     return false;
@@ -236,7 +286,8 @@ static bool c14ValidAct(const char* act)
   long v;
   const char* op = f[0];
   if(!strcmp(op, "null") || !strcmp(op, "intr") || !strcmp(op, "rmnew")) return nf == 1;
-  if(!strcmp(op, "mk")) return nf == 3 && c14Num(f[1], v) && c14Num(f[2], v) && v >= 1;
+  if(!strcmp(op, "mk")) return nf == 3 && c14Num(f[1], v) && c14Num(f[2], v);
+  if(!strcmp(op, "pair") || !strcmp(op, "lis") || !strcmp(op, "con")) return nf == 2 && c14Num(f[1], v);
   if(!strcmp(op, "rmt") || !strcmp(op, "rmc") || !strcmp(op, "rml") || !strcmp(op, "rme") || !strcmp(op, "sus") ||
      !strcmp(op, "res") || !strcmp(op, "rd")) return nf == 2 && c14Num(f[1], v);
   IpOutcome oc;
@@ -449,55 +500,9 @@ static bool c14Op(HxLine& l)
           if(!dup) ipFailConnectFd[ipNFailConnect++] = o->fd;
         }
     }
-    else if(!strcmp(op, "mkpair"))
-    {
-      if(c14Fresh((int)a))
-      {
-        C14Obj* o = c14NewObj(C14_CLIENT, (int)a);
-        o->other = new Socket;
-        o->ptr = c14Srv->pair(*o, *o->other);
-        if(!o->ptr) ipFail("pair failed");
-        else { o->fd = ((Server::Client*)o->ptr)->getSocket().s; o->peerFd = o->other->s; }
-      }
-    }
-    else if(!strcmp(op, "mklisten"))
-    {
-      if(c14Fresh((int)a))
-      {
-        C14Obj* o = c14NewObj(C14_LISTENER, (int)a);
-        ipLastAddFd = -1;
-        o->ptr = c14Srv->listen(Socket::loopbackAddress, 0, *o);
-        if(!o->ptr || ipLastAddFd < 0) ipFail("listen failed");
-        else o->fd = ipLastAddFd;
-      }
-    }
-    else if(!strcmp(op, "mkconn"))
-    {
-      if(c14Fresh((int)a))
-      {
-        if(c14RawListenFd < 0)
-        {
-          c14RawListenFd = socket(AF_INET, SOCK_STREAM | SOCK_CLOEXEC, 0);
-          struct sockaddr_in sin; memset(&sin, 0, sizeof(sin));
-          sin.sin_family = AF_INET; sin.sin_addr.s_addr = htonl(INADDR_LOOPBACK); sin.sin_port = 0;
-          socklen_t len = sizeof(sin);
-          if(bind(c14RawListenFd, (struct sockaddr*)&sin, sizeof(sin)) || listen(c14RawListenFd, 64) ||
-             getsockname(c14RawListenFd, (struct sockaddr*)&sin, &len)) ipFail("raw listener");
-          c14RawPort = ntohs(sin.sin_port);
-        }
-        C14Obj* o = c14NewObj(C14_EST, (int)a);
-        ipLastAddFd = -1;
-        o->ptr = c14Srv->connect(Socket::loopbackAddress, c14RawPort, *o);
-        if(!o->ptr || ipLastAddFd < 0) ipFail("connect failed");
-        else
-        {
-          o->fd = ipLastAddFd;
-          c14WaitFd(c14RawListenFd, POLLIN);
-          o->peerFd = accept(c14RawListenFd, 0, 0);
-          c14WaitFd(o->fd, POLLOUT);
-        }
-      }
-    }
+    else if(!strcmp(op, "mkpair")) c14MkPair((int)a);
+    else if(!strcmp(op, "mklisten")) c14MkListen((int)a);
+    else if(!strcmp(op, "mkconn")) c14MkConn((int)a);
     else if(!strcmp(op, "dial"))
     {
       if(C14Obj* o = c14Live((int)a, C14_LISTENER))
